@@ -348,6 +348,9 @@ def run(prog, rep):
     rep.attempt(PR.date_codec, prog, rep)
     # decoders attach items to their channel through the add method: an explicit channel must be honoured
     equivalence_discharge(prog, cd, rep, extra=("explicit-channel-honoured",))
+    # 'the positions of missing-data gaps': the runs the writer emits are the maximal runs of present frames (C05's derivation rule)
+    from .c05 import segments_derivation
+    rep.attempt(segments_derivation, prog, cd, rep)
     # gap positions survive only if gap frames decode as NaN (runs are derived from NaN)
     from .c05 import nan_prefill
     rep.attempt(nan_prefill, prog, cd, rep)
